@@ -234,3 +234,275 @@ Proof.
   - by apply Permutation_nil_l in Hf.
   - by apply Permutation_singleton_l in Hf.
 Qed.
+
+(* ---------------------------------------------------------------------------------------- *)
+(* C. WritePrices: the order in which the pairs are visited                                    *)
+
+Section write.
+  Context (agg : N → option Z) (ts : Z) (blk : N).
+
+  Definition pair_ok (q : gmap N (option quote)) (cp : N) : bool :=
+    match agg cp, q !! cp with
+    | Some _, Some (Some old) => q_ts old <? ts
+    | _, _ => true
+    end.
+
+  (* the store after the pairs of [visit] have been handled *)
+  Definition upd (visit : list N) (q : gmap N (option quote)) : gmap N (option quote) :=
+    map_imap (λ cp old, match agg cp with
+                        | Some p => if bool_decide (cp ∈ visit) then Some (Some (MkQuote p ts blk)) else Some old
+                        | None => Some old
+                        end) q.
+
+  Lemma upd_lookup visit q k :
+    upd visit q !! k =
+      match q !! k with
+      | None => None
+      | Some old => match agg k with
+                    | Some p => if bool_decide (k ∈ visit) then Some (Some (MkQuote p ts blk)) else Some old
+                    | None => Some old
+                    end
+      end.
+  Proof.
+    unfold upd. rewrite map_lookup_imap. destruct (q !! k) as [old|]; cbn; [|done].
+    destruct (agg k); [|done]. by destruct (bool_decide (k ∈ visit)).
+  Qed.
+
+  Lemma write_prices_seq_spec visit q :
+    NoDup visit → (∀ cp, cp ∈ visit → is_Some (q !! cp)) →
+    write_prices_seq visit q agg ts blk =
+      if forallb (pair_ok q) visit then Some (upd visit q) else None.
+  Proof.
+    revert q. induction visit as [|cp rest IH]; intros q Hnd Hex.
+    { cbn. f_equal. apply map_eq. intros k. rewrite upd_lookup. destruct (q !! k); [|done].
+      destruct (agg k); [|done]. rewrite bool_decide_eq_false_2; [done|]. apply not_elem_of_nil. }
+    apply NoDup_cons in Hnd as [Hni Hnd]. cbn [write_prices_seq forallb]. unfold pair_ok at 1.
+    destruct (agg cp) as [p|] eqn:Ha.
+    - destruct (Hex cp ltac:(left)) as [x Hx]. rewrite Hx.
+      set (q' := <[cp := Some (MkQuote p ts blk)]> q).
+      assert (Hrest : write_prices_seq rest q' agg ts blk = if forallb (pair_ok q) rest then Some (upd (cp :: rest) q) else None).
+      { rewrite IH; [|done|].
+        - assert (forallb (pair_ok q') rest = forallb (pair_ok q) rest) as ->.
+          { clear -Hni. induction rest as [|k rest IH]; [done|]. cbn. apply not_elem_of_cons in Hni as [Hk Hni].
+            rewrite IH by done. f_equal. unfold pair_ok, q'. by rewrite lookup_insert_ne. }
+          destruct (forallb (pair_ok q) rest); [|done]. f_equal. apply map_eq. intros k. rewrite !upd_lookup.
+          destruct (decide (k = cp)) as [->|Hk].
+          + unfold q'. rewrite lookup_insert, Hx, Ha. rewrite (bool_decide_eq_false_2 _ Hni).
+            by rewrite bool_decide_eq_true_2 by left.
+          + unfold q'. rewrite lookup_insert_ne by done. destruct (q !! k); [|done]. destruct (agg k); [|done].
+            destruct (decide (k ∈ rest)) as [Hin|Hin].
+            * rewrite !bool_decide_eq_true_2; [done|by right|done].
+            * rewrite !bool_decide_eq_false_2; [done| |done]. by intros [?|?]%elem_of_cons.
+        - intros k Hk. unfold q'. destruct (decide (k = cp)) as [->|Hne]; [by rewrite lookup_insert|].
+          rewrite lookup_insert_ne by done. apply Hex. by right. }
+      destruct x as [old|]; [|by cbn].
+      destruct (q_ts old <? ts); [by cbn|done].
+    - cbn [andb]. rewrite IH; [|done|intros k Hk; apply Hex; by right].
+      destruct (forallb (pair_ok q) rest); [|done]. f_equal. apply map_eq. intros k. rewrite !upd_lookup.
+      destruct (q !! k); [|done]. destruct (agg k) eqn:Hk; [|done].
+      destruct (decide (k ∈ rest)) as [Hin|Hin].
+      + rewrite !bool_decide_eq_true_2; [done|by right|done].
+      + rewrite !bool_decide_eq_false_2; [done| |done]. intros [->|?]%elem_of_cons; [congruence|done].
+  Qed.
+
+  (* visiting exactly the existing pairs, in any order, gives the model's all-or-nothing result *)
+  Lemma write_prices_seq_model visit q :
+    NoDup visit → (∀ cp, cp ∈ visit ↔ is_Some (q !! cp)) →
+    write_prices_seq visit q agg ts blk =
+      if write_ok q agg ts then Some (write_quotes q agg ts blk) else None.
+  Proof.
+    intros Hnd Hex. rewrite write_prices_seq_spec; [|done|intros; by apply Hex].
+    assert (Hb : forallb (pair_ok q) visit = write_ok q agg ts).
+    { apply eq_true_iff_eq. unfold write_ok. rewrite !forallb_forall. split.
+      - intros H [cp x] Hin. apply elem_of_list_In, elem_of_map_to_list in Hin. cbn.
+        specialize (H cp). unfold pair_ok in H. rewrite Hin in H. destruct (agg cp); [|done].
+        destruct x; [|done]. apply H. apply elem_of_list_In, Hex. eauto.
+      - intros H cp Hin. apply elem_of_list_In, Hex in Hin as [x Hx]. unfold pair_ok. rewrite Hx.
+        specialize (H (cp, x)). cbn in H. destruct (agg cp); [|done]. destruct x; [|done].
+        apply H. by apply elem_of_list_In, elem_of_map_to_list. }
+    rewrite Hb. destruct (write_ok q agg ts); [|done]. f_equal. apply map_eq. intros k.
+    rewrite upd_lookup, write_quotes_lookup. destruct (q !! k) eqn:Hk; [|done]. destruct (agg k); [|done].
+    rewrite bool_decide_eq_true_2; [done|]. apply Hex. eauto.
+  Qed.
+
+  Lemma c18_write_prices_order_independent visit1 visit2 q :
+    NoDup visit1 → NoDup visit2 →
+    (∀ cp, cp ∈ visit1 ↔ is_Some (q !! cp)) → (∀ cp, cp ∈ visit2 ↔ is_Some (q !! cp)) →
+    write_prices_seq visit1 q agg ts blk = write_prices_seq visit2 q agg ts blk.
+  Proof. intros. by rewrite !write_prices_seq_model. Qed.
+End write.
+
+(* ---------------------------------------------------------------------------------------- *)
+(* D. the stake-weighted median: order of the contributions                                   *)
+
+Lemma weight_upto_perm cs cs' q : cs ≡ₚ cs' → weight_upto cs q = weight_upto cs' q.
+Proof.
+  induction 1 as [|c l l' _ IH|c d l|l1 l2 l3 _ IH1 _ IH2]; [done| | |congruence].
+  - by rewrite !weight_upto_cons, IH.
+  - rewrite !weight_upto_cons. lia.
+Qed.
+
+Lemma weight_total_perm cs cs' : cs ≡ₚ cs' → weight_total cs = weight_total cs'.
+Proof.
+  induction 1 as [|c l l' _ IH|c d l|l1 l2 l3 _ IH1 _ IH2]; rewrite ?weight_total_cons; [done|lia|lia|congruence].
+Qed.
+
+Lemma median_scan_is_Some mid acc l : l ≠ [] → is_Some (median_scan mid acc l).
+Proof.
+  revert acc. induction l as [|x l IH]; intros acc Hne; [done|]. cbn [median_scan].
+  destruct l as [|y l]; [eauto|]. destruct (mid <=? acc + x.1); [eauto|]. by apply IH.
+Qed.
+
+Lemma insert_price_nonempty x l : insert_price x l ≠ [].
+Proof. destruct l as [|y l]; cbn; [done|]. by destruct (x.2 <=? y.2). Qed.
+
+Lemma median_is_Some cs : cs ≠ [] → is_Some (median cs).
+Proof.
+  intros Hne. unfold median. apply median_scan_is_Some. destruct cs as [|c cs]; [done|].
+  cbn. apply insert_price_nonempty.
+Qed.
+
+(* the VALUE of the median does not depend on the order of the contributions (equal prices with
+   different weights may be sorted differently; the value is characterised by C15's median_spec) *)
+Lemma c18_median_order_independent cs cs' :
+  cs ≡ₚ cs' → (∀ c, c ∈ cs → 0 <= c.1.2) → median cs = median cs'.
+Proof.
+  intros Hp Hw. destruct cs as [|c0 cs0].
+  { apply Permutation_nil_l in Hp as ->. done. }
+  assert (Hw' : ∀ c, c ∈ cs' → 0 <= c.1.2) by (intros c Hc; apply Hw; by rewrite Hp).
+  assert (Hne' : cs' ≠ []) by (intros ->; by apply Permutation_nil_r in Hp).
+  destruct (median_is_Some (c0 :: cs0) ltac:(done)) as [p Hm]. destruct (median_is_Some cs' Hne') as [p' Hm'].
+  rewrite Hm, Hm'. f_equal.
+  destruct (median_spec _ _ Hw Hm) as ((c & Hc & Hcp) & H2 & H3).
+  destruct (median_spec _ _ Hw' Hm') as ((c' & Hc' & Hcp') & H2' & H3').
+  rewrite <- (weight_total_perm _ _ Hp) in *.
+  destruct (Z.lt_trichotomy p p') as [Hlt|[->|Hgt]]; [exfalso|done|exfalso].
+  - rewrite Hp in Hc. specialize (H3' c Hc ltac:(lia)). rewrite <- (weight_upto_perm _ _ _ Hp), Hcp in H3'. lia.
+  - rewrite <- Hp in Hc'. specialize (H3 c' Hc' ltac:(lia)). rewrite Hcp', (weight_upto_perm _ _ _ Hp) in H3. lia.
+Qed.
+
+(* with a negative weight the value does depend on the order: why the hypothesis is there *)
+Example median_order_negative_weight :
+  median [(1%N, 5, 1); (2%N, -5, 1); (3%N, 3, 2)] = Some 1 ∧
+  median [(2%N, -5, 1); (1%N, 5, 1); (3%N, 3, 2)] = Some 2.
+Proof. split; vm_compute; reflexivity. Qed.
+
+(* the aggregated price of a pair computed from the contributions in ANY order (the Go code ranges
+   over the provider map) *)
+Definition agg_of (total : Z) (cs : list (N * Z * Z)) : option Z :=
+  if threshold <=? dec_quo (weight_total cs) total then median cs else None.
+
+Lemma agg_price_agg_of s prov cp :
+  agg_price s prov cp = match quotes s !! cp with
+                        | None => None
+                        | Some _ => agg_of (total_tokens (hset s)) (contributors (hset s) prov cp)
+                        end.
+Proof. done. Qed.
+
+Lemma c18_agg_order_independent total cs cs' :
+  cs ≡ₚ cs' → (∀ c, c ∈ cs → 0 <= c.1.2) → agg_of total cs = agg_of total cs'.
+Proof.
+  intros Hp Hw. unfold agg_of. rewrite (weight_total_perm _ _ Hp).
+  destruct (threshold <=? _); [|done]. by apply c18_median_order_independent.
+Qed.
+
+(* ---------------------------------------------------------------------------------------- *)
+(* E. D15: currency-pair walks of the id cache (gas)                                          *)
+
+Lemma walks_from_filled pairs ids :
+  walks_from true pairs ids = length (filter (λ id, id ∉ pairs) ids).
+Proof.
+  induction ids as [|id ids IH]; [done|]. cbn [walks_from andb]. rewrite filter_cons.
+  destruct (decide (id ∈ pairs)) as [Hin|Hin].
+  - rewrite (bool_decide_eq_true_2 _ Hin). rewrite decide_False by (intros ?; done). done.
+  - rewrite (bool_decide_eq_false_2 _ Hin). rewrite decide_True by done. cbn. by rewrite IH.
+Qed.
+
+(* after the repair the number of walks is the same for every order of the looked-up ids *)
+Lemma c18_walks_new_order_independent pairs ids ids' :
+  ids ≡ₚ ids' → walks_new pairs ids = walks_new pairs ids'.
+Proof. intros Hp. unfold walks_new. rewrite !walks_from_filled. by rewrite Hp. Qed.
+
+(* ... and is a function of the state and the transaction: 1 + the number of unknown ids *)
+Lemma walks_new_value pairs ids : walks_new pairs ids = S (length (filter (λ id, id ∉ pairs) ids)).
+Proof. unfold walks_new. by rewrite walks_from_filled. Qed.
+
+(* before the repair: two orders of the same ids, and a warm versus a cold cache, differ *)
+Lemma c18_walks_old_order_refuted :
+  ∃ pairs ids ids', ids ≡ₚ ids' ∧ walks_old false pairs ids ≠ walks_old false pairs ids'.
+Proof. exists [1%N], [1%N; 2%N], [2%N; 1%N]. split; [apply Permutation_swap|]. vm_compute. lia. Qed.
+
+Lemma c18_walks_old_history_refuted :
+  ∃ pairs ids, walks_old false pairs ids ≠ walks_old true pairs ids.
+Proof. exists [1%N], [1%N]. vm_compute. lia. Qed.
+
+(* ---------------------------------------------------------------------------------------- *)
+(* non-vacuity                                                                                 *)
+
+Definition ex_votes_perm : list vote :=
+  [ MkVote 2%N true false false true (Some (true, [(0%N, 104)]));
+    MkVote 9%N true false false false (Some (true, [(1%N, 999); (0%N, 1)]));
+    MkVote 1%N true false false true (Some (true, [(1%N, 11); (0%N, 100)]));
+    MkVote 3%N false true true false None;
+    MkVote 2%N true false false true (Some (true, [(1%N, 13); (0%N, 102)])) ].
+
+(* ex_votes with permuted price entries and reordered entries of different validators (the two
+   votes of validator 2 keep their relative order): same accepted result *)
+Example ex_reordered_same :
+  update_oracle ex_state 12%N (Some 2%N) 8%N (Some ex_votes_perm) =
+  update_oracle ex_state 12%N (Some 2%N) 8%N (Some ex_votes) ∧
+  is_Some (update_oracle ex_state 12%N (Some 2%N) 8%N (Some ex_votes)).
+Proof. split; [vm_compute; reflexivity|]. vm_compute. eauto. Qed.
+
+(* swapping the two votes of validator 2 changes what is written: arbitrary reordering is not invariant *)
+Definition ex_votes_swapped : list vote :=
+  [ MkVote 1%N true false false true (Some (true, [(0%N, 100); (1%N, 11)]));
+    MkVote 2%N true false false true (Some (true, [(0%N, 102); (1%N, 13)]));
+    MkVote 2%N true false false true (Some (true, [(0%N, 104)])) ].
+Definition ex_votes_swapped' : list vote :=
+  [ MkVote 1%N true false false true (Some (true, [(0%N, 100); (1%N, 11)]));
+    MkVote 2%N true false false true (Some (true, [(0%N, 104)]));
+    MkVote 2%N true false false true (Some (true, [(0%N, 102); (1%N, 13)])) ].
+Example ex_same_validator_swap_differs :
+  ex_votes_swapped ≡ₚ ex_votes_swapped' ∧
+  update_oracle ex_state 12%N (Some 2%N) 8%N (Some ex_votes_swapped) ≠
+  update_oracle ex_state 12%N (Some 2%N) 8%N (Some ex_votes_swapped').
+Proof. split; [apply perm_skip, perm_swap|]. vm_compute. discriminate. Qed.
+
+Definition ex_agg : N → option Z := λ cp, if (cp =? 0)%N then Some 100 else Some 11.
+Example ex_write_seq_orders :
+  (∃ m1 m2, write_prices_seq [0%N; 1%N] (quotes ex_state) ex_agg 100 12%N = Some m1 ∧
+            write_prices_seq [1%N; 0%N] (quotes ex_state) ex_agg 100 12%N = Some m2 ∧
+            m1 !! 1%N = Some (Some (MkQuote 11 100 12%N)) ∧ m2 !! 1%N = Some (Some (MkQuote 11 100 12%N)) ∧
+            m1 !! 0%N = Some (Some (MkQuote 100 100 12%N)) ∧ m2 !! 0%N = Some (Some (MkQuote 100 100 12%N))) ∧
+  (* a stale pair (stored timestamp 50) rejects everything, whichever pair is visited first *)
+  write_prices_seq [0%N; 1%N] (quotes ex_state) ex_agg 50 12%N = None ∧
+  write_prices_seq [1%N; 0%N] (quotes ex_state) ex_agg 50 12%N = None.
+Proof.
+  split; [|split; vm_compute; reflexivity].
+  eexists _, _. split; [vm_compute; reflexivity|]. split; [vm_compute; reflexivity|].
+  repeat split; vm_compute; reflexivity.
+Qed.
+
+(* ---------------------------------------------------------------------------------------- *)
+(* corollaries used as statements                                                             *)
+
+Lemma c18_distinct_validators_any_order s blk sender height votes votes' :
+  votes ≡ₚ votes' → NoDup (v_addr <$> votes) →
+  update_oracle s blk sender height (Some votes) = update_oracle s blk sender height (Some votes').
+Proof. intros Hp Hnd. apply c18_votes_order. by apply same_validator_order_distinct. Qed.
+
+Lemma c18_arbitrary_reorder_refuted :
+  ∃ s blk sender height votes votes',
+    votes ≡ₚ votes' ∧
+    update_oracle s blk sender height (Some votes) ≠ update_oracle s blk sender height (Some votes').
+Proof.
+  exists ex_state, 12%N, (Some 2%N), 8%N, ex_votes_swapped, ex_votes_swapped'. exact ex_same_validator_swap_differs.
+Qed.
+
+Lemma c18_median_negative_weight_refuted :
+  ∃ cs cs' : list (N * Z * Z), cs ≡ₚ cs' ∧ median cs ≠ median cs'.
+Proof.
+  exists [(1%N, 5, 1); (2%N, -5, 1); (3%N, 3, 2)], [(2%N, -5, 1); (1%N, 5, 1); (3%N, 3, 2)].
+  split; [apply perm_swap|]. destruct median_order_negative_weight as [-> ->]. discriminate.
+Qed.
